@@ -31,13 +31,14 @@ LEVEL_NOTE = ("Trusted base: sim/world.py (switches only at synchronisation poin
 QUICK_WORKERS = 4
 WORKERS = 14
 
-FLAVOURS = ('reconnect', 'replace', 'control', 'requests', 'trash', 'two_sessions', 'keyspace_sync')
+FLAVOURS = ('reconnect', 'replace', 'control', 'requests', 'trash', 'two_sessions', 'keyspace_sync', 'control_fail')
 INF = 10 ** 9
 
 K_TRASH = "trashed-connection-never-closed-by-hostconnection-shutdown"
 K_INSTALL = "replacement-connection-installed-into-shut-down-pool"
 K_POOL_LATE = "pool-finished-after-session-shutdown-is-installed-open"
 K_POOL_QUEUED = "pool-creation-queued-before-session-shutdown-still-opens-a-connection-afterwards"
+K_CC_QUEUED = "control-reconnect-queued-before-shutdown-still-makes-its-first-attempt"
 K_CC_LATE = "control-connection-installed-by-reconnect-after-shutdown"
 K_CONNECT_RACE = "session-created-while-cluster-shuts-down-is-never-shut-down"
 
@@ -89,16 +90,17 @@ def run_history(seed, variant, k):
     rng = random.Random(seed)
     random.seed(seed)
     ch = InjectChooser(random.Random(seed * 13 + 5), k, rng.choice([0.0, 0.05, 0.15]))
-    addrs = ['127.0.0.1', '127.0.0.2']
+    addrs = ['127.0.0.1', '127.0.0.2'] + (['127.0.0.3'] if flavour == 'control_fail' else [])
     env = SimEnv(ch, addresses=addrs, max_virtual_time=600.0)
     w = env.world
     if flavour == 'trash':
         env.conn_class.max_in_flight = 8
         env.conn_class.orphaned_threshold = 3
     plan = {}                      # uid -> action
+    ctrl_fail = {}                 # {'from_conn': id, 'count': n, 'delay': s}: system.local on new control connections answered with a late server error
     hold_use = {}                  # address -> {'from_conn': id, 'delays': [(keyspace, delay)]}  answers to USE on new pool connections kept back
     hold_handshake = {}            # address -> [count, delay, op]   keep the answer to OPTIONS/STARTUP back for `delay` seconds
-    convict = {'127.0.0.1': True, '127.0.0.2': True}
+    convict = {'127.0.0.1': True, '127.0.0.2': True, '127.0.0.3': True}
     S = {'cluster': None, 'session': None, 'session2': None, 'stop': False, 'done': False, 'log': [], 'futures': []}
 
     def timed_release(frame_holder, delay):
@@ -120,6 +122,15 @@ def run_history(seed, variant, k):
             return None
         uid = uid_of(req['query'])
         if uid is None:
+            cf = ctrl_fail
+            if cf.get('count', 0) > 0 and cstate.conn.sim_creator == 'control' and cstate.conn.sim_id >= cf['from_conn'] and 'system.local' in req['query'].lower():
+                # the control connection that is being set up gets a late server error for its system.local query: the attempt fails, not with a
+                # connection error, after `delay`
+                cf['count'] -= 1
+                S['control_queries_failed_late'] = S.get('control_queries_failed_late', 0) + 1
+                r = node.error(cstate, req, 'server', 'scripted server error')
+                timed_release(req, cf['delay'])
+                return ('hold', r[1])
             hu = hold_use.get(a)
             if hu and cstate.conn.sim_creator == 'pool-init' and cstate.conn.sim_id >= hu['from_conn']:
                 for ks, delay in hu['delays']:
@@ -217,6 +228,7 @@ def run_history(seed, variant, k):
                 r = orig_cc_shutdown()
                 # which connections had finished their handshake when the control connection was marked shut down
                 S['connected_when_cc_shut'] = set(c.sim_id for c in env.net.conns if c.connected_event.is_set())
+                S['conns_when_cc_shut'] = len(env.net.conns)
                 return r
             cc_.shutdown = cc_shutdown
             S['cluster'] = cluster
@@ -295,6 +307,26 @@ def run_history(seed, variant, k):
                     return
                 n1.up = True
                 sleep(0.8)
+            elif flavour == 'control_fail':
+                # three nodes: node 1 (control connection host) goes away; the control connection reconnects over the other two hosts and its first
+                # attempt fails late with a server error on system.local (not a connection error), the next host then succeeds
+                cc = cluster.control_connection._connection
+                ctrl_fail.update({'from_conn': len(env.net.conns), 'count': 1, 'delay': 0.4})
+                n1.up = False
+                if cc is not None:
+                    env.net.server_close(cc, reset=True)
+                request(session, host=hosts.get('127.0.0.1'), act='reset')
+                if S['stop']:
+                    return
+                sleep(0.2)
+                if S['stop']:
+                    return
+                request(session)
+                sleep(0.9)
+                if S['stop']:
+                    return
+                n1.up = True
+                sleep(0.8)
             elif flavour == 'keyspace_sync':
                 # node 2 goes away and is reconnected; while on_up builds the new pool (its USE "ks1" is answered late) the session keyspace is
                 # switched on the other pool, so the pool task has to re-sync the new pool (USE "ks2", answered late as well) before installing it
@@ -366,6 +398,7 @@ def run_history(seed, variant, k):
                 R['info']['log'] = list(S['log'])
                 R['info']['connect_steps'] = S.get('connect_steps', 0)
                 R['info']['use_held'] = S.get('use_held', 0)
+                R['info']['control_queries_failed_late'] = S.get('control_queries_failed_late', 0)
             if S['cluster'] is not None:
                 S['cluster'].shutdown()
             w.settle(until=w.now + 30.0)
@@ -516,6 +549,17 @@ def run_history(seed, variant, k):
                     {'conn': conn.sim_id, 'creator': conn.sim_creator, 'target': target, 'closed_in_the_end': bool(conn.is_closed), 'task': task_info(conn),
                      'where': wh, 'pool_shutdown': bool(pool.is_shutdown) if pool is not None else None, 'owner_session_shutdown': owner_shutdown(pool),
                      'pool_installed_at_call': pool is not None and any(pool is x for x in pools_pre)}))
+            if target == 'cluster' and S.get('conns_when_cc_shut') is not None:
+                # once the control connection has been shut down no further control connection attempt is started
+                for conn in env.net.conns[S['conns_when_cc_shut']:]:
+                    if conn.sim_creator != 'control':
+                        continue
+                    tk = getattr(conn, 'sim_task', None)
+                    earlier = tk is not None and any(c2.sim_creator == 'control' and getattr(c2, 'sim_task', None) is tk and c2.sim_id < conn.sim_id for c2 in env.net.conns)
+                    R['viol'].append(('cc_late', "control connection attempt %d to %s was started at t=%.3f, after ControlConnection.shutdown() had completed (Cluster.shutdown() called at t=%.3f)" % (
+                        conn.sim_id, conn.endpoint, conn.sim_created_at, t_call),
+                        {'conn': conn.sim_id, 'task': task_info(conn), 'same_task_had_made_an_earlier_attempt': earlier, 'closed_in_the_end': bool(conn.is_closed),
+                         'opened_after_shutdown_returned': conn.sim_id >= ret_conns}))
             if probe is not None and probe._event.is_set() and probe._final_exception is None:
                 R['viol'].append(('accepted', "a request issued after %s.shutdown() returned was executed successfully" % target, {'target': target}))
             if probe is not None and not probe._event.is_set():
@@ -576,6 +620,12 @@ def classify(v, R=None):
                 and t.get('fn', '').endswith('run_add_or_renew_pool') and not t.get('submitted_after_call'):
             return K_POOL_QUEUED        # queued before Session.shutdown(), started afterwards; closed again once connected
         return "connection-opened-after-shutdown-returned"
+    if kind == 'cc_late':
+        t = info.get('task') or {}
+        if not info['same_task_had_made_an_earlier_attempt'] and t.get('fn', '').endswith('ControlConnection._reconnect') and not t.get('submitted_after_call') \
+                and info['closed_in_the_end']:
+            return K_CC_QUEUED          # a reconnect task queued before shutdown that starts while the executor drains: first attempt, closed right away
+        return "control-connection-attempt-started-after-control-connection-shutdown"
     if kind == 'accepted':
         if R is not None and any(v2[0] == 'open' and classify(v2) in (K_POOL_LATE, K_CONNECT_RACE) for v2 in R['viol']):
             return [classify(v2) for v2 in R['viol'] if v2[0] == 'open' and classify(v2) in (K_POOL_LATE, K_CONNECT_RACE)][0]
@@ -591,7 +641,7 @@ def run(ctx):
     from vlib.run import Inconclusive
     from sim.world import WorldLimit
     ctx.rule = ("a case is (history variant, injection step k): variant = what happens (reconnect / replace / control / requests / trash / "
-                "two_sessions / keyspace_sync) x protocol (v4 HostConnection, v2 HostConnectionPool) x which shutdown (Cluster / Session); for each variant all k in "
+                "two_sessions / keyspace_sync / control_fail) x protocol (v4 HostConnection, v2 HostConnectionPool) x which shutdown (Cluster / Session); for each variant all k in "
                 "0..N are run (N = scheduling steps of the uninterrupted history); distinct by (variant, k); non-trivial = the cluster object existed "
                 "at step k")
     ctx.assume("requests that were in flight when shutdown was called are not judged (they carry finite timeouts); only a request issued after the call returned must not stay pending")
@@ -603,7 +653,7 @@ def run(ctx):
     first = [allv.index(('reconnect', 4, 'session')), allv.index(('control', 4, 'cluster')), allv.index(('replace', 2, 'cluster')),
              allv.index(('trash', 4, 'cluster')),
              allv.index(('keyspace_sync', 4, 'session')), allv.index(('keyspace_sync', 2, 'cluster')), allv.index(('replace', 4, 'session')),
-             allv.index(('reconnect', 2, 'cluster'))]
+             allv.index(('control_fail', 4, 'cluster'))]
     if ctx.quick:
         first = first[:8]
     rest = [i for i in order if i not in first]
